@@ -618,7 +618,8 @@ theorem C14_read_scope_missing_core (ev : Str → EvalResult) (fs : FS) (o : Rea
   simp only [Except.map, scopeOut, hm, Bool.false_eq_true, if_false]
 
 /-- **C14 / C13, `parse` with a scope**: when the scope exists, `parse` writes exactly one file — in the folder of the
-    source, named `targetName name "parsed" (str(key) for key in scope) output` — and returns the scoped dict; if the
+    source, named `targetName name "parsed" (str(key) for key in scope) output` — and returns the scoped dict with its
+    string leaves re-typed (`normEs`: `DictWriter.write` re-types the dict it is given in place); if the
     serialiser gives up, nothing is written. -/
 theorem C14_parse_scope_target (ev : Str → EvalResult) (w : World) (o : ReadOpts) (dir : Comps) (name : Str)
     (mode : Str) (output : Option Str) (hs : o.scope ≠ []) (hk : FirstKeyOK o = true) {b : FileBody}
@@ -630,7 +631,7 @@ theorem C14_parse_scope_target (ev : Str → EvalResult) (w : World) (o : ReadOp
     (∀ t c'', writeText ev w.fs (parseTarget (dir ++ [name]) o.scope output) mode o.order (.sd (scopedSD o u sub)) c' = .ok (t, c'') →
       apiStep ev w (.parse (dir ++ [name]) o mode output) =
         ({ fs := w.fs.set (resolveSpelled (parseTarget (dir ++ [name]) o.scope output)) (.native t), c := c'' },
-         .data (scopedSD o u sub))) ∧
+         .data { scopedSD o u sub with data := normEs (scopedSD o u sub).data })) ∧
     (∀ e, writeText ev w.fs (parseTarget (dir ++ [name]) o.scope output) mode o.order (.sd (scopedSD o u sub)) c' = .error e →
       apiStep ev w (.parse (dir ++ [name]) o mode output) = (w, .gaveUp e)) ∧
     (∀ q, q ≠ resolveSpelled (parseTarget (dir ++ [name]) o.scope output) →
@@ -859,22 +860,26 @@ example : ∃ u c', u.data = exData ∧
     (scopedSD { scope := exScope } u exSub).data = exSub ∧
     (∀ t c'', writeText evalInt exWorld.fs exTarget ['w'] false (.sd (scopedSD { scope := exScope } u exSub)) c' = .ok (t, c'') →
       apiStep evalInt exWorld (.parse exSrc { scope := exScope } ['w'] none) =
-        ({ fs := exWorld.fs.set (resolveSpelled exTarget) (.native t), c := c'' }, .data (scopedSD { scope := exScope } u exSub))) := by
+        ({ fs := exWorld.fs.set (resolveSpelled exTarget) (.native t), c := c'' },
+         .data { scopedSD { scope := exScope } u exSub with data := exSub })) := by
   obtain ⟨u, c', h, hd⟩ := exists_of_dataOf ex_unscoped
   have hsub : scopeOf u.data exScope = some exSub := by rw [hd]; decide
   obtain ⟨h1, h2, _, _⟩ := C14_parse_scope_target evalInt exWorld { scope := exScope } ["w".toList] "case".toList ['w'] none
     (by decide) rfl (b := .native _) rfl h hsub
   have htn : targetName "case".toList (some "parsed".toList) (exScope.map keyText) none = "parsed.case_a_1".toList := by
     decide +kernel
-  refine ⟨u, c', hd, by rw [h1, htn], ?_, ?_⟩
-  · have hn : NodupKeysV (.dict exSub) := by simp [exSub, NodupKeysV, NodupKeysEs, NodupKeysXs, keys]
+  have hdata : (scopedSD { scope := exScope } u exSub).data = exSub := by
+    have hn : NodupKeysV (.dict exSub) := by simp [exSub, NodupKeysV, NodupKeysEs, NodupKeysXs, keys]
     have hp : C07.NoPhEs exSub := by simp [exSub, C07.NoPhEs, C07.NoPhV, C07.isPhKey]; decide
     simp only [scopedSD, ordIf, dropIncl, Bool.false_eq_true, if_false, if_true, C14.updateD_nil_of_nodup hn.1]
     rw [C07.clean_id { u with data := exSub } hn hp]
+  refine ⟨u, c', hd, by rw [h1, htn], hdata, ?_⟩
   · intro t c'' hw
     have hpt : parseTarget (["w".toList] ++ ["case".toList]) exScope none = exTarget := by rw [h1, htn]; rfl
     rw [hpt] at h2
-    exact h2 t c'' hw
+    have h3 := h2 t c'' hw
+    rw [hdata, show normEs exSub = exSub by decide +kernel] at h3
+    exact h3
 
 /-! #### C17 -/
 
